@@ -382,7 +382,11 @@ root:
 			switch ev.Type() {
 			case midi.NoteOn:
 				d.externalTrackerMutex.Lock()
-				d.externalNoteTracker[ev.Channel()][ev.Note()] = true
+				if len(ev) > 2 && ev[2] == 0 { // Note On with velocity 0 is a Note Off
+					delete(d.externalNoteTracker[ev.Channel()], ev.Note())
+				} else {
+					d.externalNoteTracker[ev.Channel()][ev.Note()] = true
+				}
 				d.externalTrackerMutex.Unlock()
 			case midi.NoteOff:
 				d.externalTrackerMutex.Lock()
